@@ -2,6 +2,7 @@ import ThruVerif.Model.Sidecar
 import ThruVerif.Gen.Consts
 import ThruVerif.Proofs.Resume
 import ThruVerif.Model.Entry
+import ThruVerif.Model.Begin
 import ThruVerif.Gen.Shapes
 /-!
 # C06 — Stale, foreign or damaged resume state is never trusted  (metadata part)
@@ -275,3 +276,103 @@ example : sentList (recvInfo 8 exB exGood false true) (plan ⟨0, true, true⟩ 
 example : sentList (recvInfo 3 [true, true, true] (fun i => i != 2) true true) (plan ⟨1, false, true⟩ (recvInfo 3 [true, true, true] (fun i => i != 2) true true)) = [] := by decide
 
 end TV.Resume
+
+namespace TV.Begin
+
+/-! ### a resumed file with everything recorded: when may the receiver call it complete (`Model/Begin`) -/
+
+structure Inv (s : St) : Prop where
+  ph : s.phase ≥ 1 → s.verifyAsked = true
+  reg : s.registered = true → s.phase = 2
+  fin : s.finalised = true → ∃ n, s.endCount = some n ∧ s.framesRecv ≥ n
+
+theorem inv_init : Inv init := ⟨by simp [init], by simp [init], by simp [init]⟩
+
+theorem inv_step {s s' : St} {a : Step} (hI : Inv s) (h : step true s a = some s') : Inv s' := by
+  obtain ⟨hp, hr, hf⟩ := hI
+  cases a with
+  | begin_ =>
+    simp only [step] at h
+    split at h
+    · rename_i h0
+      injection h with h; subst h
+      refine ⟨fun _ => rfl, ?_, hf⟩
+      intro hreg
+      have := hr hreg
+      omega
+    · split at h
+      · rename_i h0 h1
+        injection h with h; subst h
+        exact ⟨fun _ => hp (by omega), fun _ => rfl, hf⟩
+      · cases h
+  | frame =>
+    simp only [step] at h
+    split at h
+    · injection h with h; subst h; exact ⟨hp, hr, hf⟩
+    · split at h
+      · rename_i hnf hreg
+        have hv : s.verifyAsked = true := hp (by have := hr hreg; omega)
+        injection h with h; subst h
+        split
+        · rename_i hc
+          refine ⟨hp, hr, fun _ => ?_⟩
+          simp only [complete, hv, Bool.not_true, Bool.false_eq_true, ↓reduceIte] at hc
+          cases he : s.endCount with
+          | none => simp [he] at hc
+          | some n => exact ⟨n, rfl, by simpa [he] using hc⟩
+        · exact ⟨hp, hr, fun hfin => by simp at hnf; simp [hnf] at hfin⟩
+      · cases h
+  | fileEnd n =>
+    simp only [step] at h
+    split at h
+    · rename_i hc
+      have hv : s.verifyAsked = true := hp (by omega)
+      injection h with h; subst h
+      split
+      · rename_i hcc
+        refine ⟨hp, hr, fun _ => ⟨n, rfl, ?_⟩⟩
+        simp only [Bool.and_eq_true, Bool.not_eq_true', complete, hv, Bool.not_true, Bool.false_eq_true, ↓reduceIte, decide_eq_true_eq] at hcc
+        exact hcc.2
+      · rename_i hcc
+        refine ⟨hp, hr, fun hfin => ?_⟩
+        -- already finalised before: the earlier witness was for endCount = none, impossible
+        obtain ⟨m, hm, _⟩ := hf hfin
+        rw [hc.2] at hm
+        cases hm
+    · cases h
+
+theorem inv_run {s s' : St} {as : List Step} (hI : Inv s) (h : run true s as = some s') : Inv s' := by
+  induction as generalizing s with
+  | nil => simp [run] at h; subst h; exact hI
+  | cons a as ih =>
+    simp only [run] at h
+    split at h
+    · rename_i s1 h1
+      exact ih (inv_step hI h1) h
+    · cases h
+
+/-- **C06_all_recorded_file_waits_for_file_end.** Frames may overtake the file's `FileBegin` and readers may run between any two
+actions of `handleFileBegin`: with the report built before the file is registered, a file whose chunks are all recorded is finalised
+only after `FileEnd`, when every frame `FileEnd` announces has been processed - the re-send of a torn last chunk is one of them -/
+theorem C06_all_recorded_file_waits_for_file_end (as : List Step) (s : St) (h : run true init as = some s) (hf : s.finalised = true) :
+    ∃ n, s.endCount = some n ∧ s.framesRecv ≥ n :=
+  (inv_run inv_init h).fin hf
+
+/-- premises satisfiable: seven frames, two of them parked before the FileBegin is handled -/
+example : ∃ s, run true init [.begin_, .begin_, .frame, .frame, .frame, .fileEnd 7, .frame, .frame, .frame, .frame] = some s ∧
+    s.finalised = true ∧ s.framesRecv = 7 ∧ s.drained = 0 := ⟨_, rfl, rfl, rfl, rfl⟩
+
+/-- the order before fix 91ddaf6 (registration, then report): a reader running between the two finalises the file at its first frame;
+the six frames behind it are drained (the schedule replayed with `recv.file_begin.enter` held and a slow display callback) -/
+theorem C06_all_recorded_file_refuted_before_fix :
+    ∃ s, run false init [.begin_, .frame, .begin_, .frame, .frame, .frame, .frame, .frame, .frame] = some s ∧
+      s.finalised = true ∧ s.framesRecv = 1 ∧ s.drained = 6 ∧ s.endCount = none := ⟨_, rfl, rfl, rfl, rfl, rfl⟩
+
+open TV.Gen.Shapes in
+/-- `handleFileBegin`: the report is built (`buildResumeInfo`, which sets `verifyAsked`) before the file is put into `stateByKey` and
+the parked readers are signalled (the last entry is the `ResumeRequest` handler's own call) -/
+theorem C06_source_begin_order :
+    begin_order = ["info, err := buildResumeInfo(state)", "stateByKey[key] = state", "fileReady.signal(key)",
+      "info, err := buildResumeInfo(state)"] := by decide
+
+end TV.Begin
